@@ -282,9 +282,11 @@ void op_log(World& W, int wi, bool in_burst, int ypoint, int logger_override = -
   if (kind_override >= 0) s.kind = static_cast<SKind>(kind_override);
   else if (is_prop("C10"))
   {
-    switch (c.weighted({6, 1, 1, 2, 1}))
+    switch (c.weighted({6, 1, 1, 2, 1, 3, 1}))
     {
     case 0: break;
+    case 5: s.kind = SKind::Named; break;
+    case 6: s.kind = SKind::NamedBtNoInit; break;
     case 1: s.kind = SKind::BadTemplate; break;
     case 2: s.kind = SKind::BadSpec; break;
     case 3:
@@ -306,8 +308,10 @@ void op_log(World& W, int wi, bool in_burst, int ypoint, int logger_override = -
     dynamic = c.pick(3) == 2;
     s.kind = dynamic ? SKind::MacroDynamic : SKind::MacroStatic;
   }
-  if (s.kind == SKind::Backtrace || s.kind == SKind::BtNoInit) s.level = 9;
-  if (s.kind == SKind::BadTemplate || s.kind == SKind::BadSpec || s.kind == SKind::BtNoInit || (s.kind == SKind::Bomb && s.bomb_kind != 0))
+  if (s.kind == SKind::Backtrace || s.kind == SKind::BtNoInit || s.kind == SKind::NamedBtNoInit) s.level = 9;
+  if (s.kind == SKind::Named) s.level = 4;
+  if (s.kind == SKind::BadTemplate || s.kind == SKind::BadSpec || s.kind == SKind::BtNoInit || s.kind == SKind::NamedBtNoInit ||
+      (s.kind == SKind::Bomb && s.bomb_kind != 0))
   {
     s.faulty = true;
     ++W.injected_faults;
@@ -324,7 +328,7 @@ void op_log(World& W, int wi, bool in_burst, int ypoint, int logger_override = -
     // the deferred-format argument is larger than the two integers it replaces (object + alignment slack)
     s.padlen = s.padlen > 32 ? s.padlen - 32 : 0;
   }
-  s.encoded = kStmtFixed + s.padlen + (s.kind == SKind::Bomb ? 32 : 0);
+  s.encoded = kStmtFixed + s.padlen + (s.kind == SKind::Bomb ? 32 : 0) + (s.kind == SKind::Dynamic ? 1 : 0);
   s.issue_idx = W.op_counter;
   bool stall = false;
   if ((is_prop("C05") || is_prop("C06")) && !small && W.stalls_enabled) stall = c.pick(6) == 5;
@@ -351,6 +355,9 @@ void op_log(World& W, int wi, bool in_burst, int ypoint, int logger_override = -
     if (kind == SKind::BadSpec) d += ",badspec";
     if (kind == SKind::Bomb) d += ",bomb" + std::to_string(bomb_kind);
     if (kind == SKind::BtNoInit) d += ",bt-noinit";
+    if (kind == SKind::Named) d += ",named";
+    if (kind == SKind::NamedBtNoInit) d += ",named-bt-noinit";
+    if (kind == SKind::Dynamic) d += ",dyn";
     if (is_macro) d += std::string{","} + (dynamic ? "dyn:" : "") + kLevelCodes[level];
     else if (is_prop("C18")) d += std::string{","} + kLevelCodes[level];
     if (stall) d += ",stall";
@@ -377,6 +384,15 @@ void op_log(World& W, int wi, bool in_burst, int ypoint, int logger_override = -
           {
             xp->res_accepted = lg->template log_statement<false, false>(quill::LogLevel::None, &kMd[level], wid, seq, pad);
           }
+          break;
+        case SKind::Named:
+          xp->res_accepted = lg->template log_statement<false, false>(quill::LogLevel::None, &kMdNamed, wid, seq, pad);
+          break;
+        case SKind::NamedBtNoInit:
+          xp->res_accepted = lg->template log_statement<false, false>(quill::LogLevel::None, &kMdNamedBt, wid, seq, pad);
+          break;
+        case SKind::Dynamic:
+          xp->res_accepted = lg->template log_statement<false, true>(static_cast<quill::LogLevel>(level), &kMdDyn, wid, seq, pad);
           break;
         case SKind::BadTemplate:
           xp->res_accepted = lg->template log_statement<false, false>(quill::LogLevel::None, &kMdBadTemplate, wid, seq, pad);
@@ -577,10 +593,12 @@ void op_bt_plain(World& W, int wi, bool in_burst, int ypoint)
   if (li < 0) return;
   LoggerInfo& L = W.loggers[li];
   size_t before = W.stmts.size();
-  op_log(W, wi, in_burst, ypoint, li, static_cast<int>(SKind::Normal), true);
+  bool dyn = W.c->pick(3) == 2; // level supplied at run time (LOG_DYNAMIC): the effective level decides the flush
+  op_log(W, wi, in_burst, ypoint, li, static_cast<int>(dyn ? SKind::Dynamic : SKind::Normal), true);
   if (W.stmts.size() > before)
   {
     Stmt& s = W.stmts.back();
+    if (dyn) W.r->label("dynamic_level_statement");
     L.bt_events.push_back(BtEvent{'S', W.stmts.size() - 1, 0, 0});
     if (L.bt_init && s.level >= L.bt_flush_level) L.bt_stored_since_flush = 0;
   }
